@@ -930,6 +930,9 @@ def m_C17(v):
     """sale terms frozen once participants can commit funds"""
     out = []
     for i, k in enumerate(v.kind):
+        if k == "dump" and v.D[i] and v.D[i][0].get("views", "ok") != "ok":
+            out.append((i, f"C17 public getters disagree with the stored terms: {v.D[i][0]['views']}"))
+    for i, k in enumerate(v.kind):
         if not v.accepted(i):
             continue
         c = v.call[i]
